@@ -10,6 +10,15 @@ says what a Python construct of the translated subset *means*:
   a loop whose body calls `irf.parameter` (which may raise) ↦ `forRangeM n state body`, state = the tuple of names
                                          bound before the loop and assigned / appended to in it
   `a < b`, `abs(a)` on doubles         ↦ `NumOrd.lt`, `NumOrd.abs`
+  `xs[i]` on a list / 1-D array          ↦ `listGet xs i` (IndexError outside the list)
+  a use of `global_index` as a number  ↦ `needIndex global_index` (TypeError for `None`)
+  `p.value` of an optional Parameter   ↦ `optValue p` (AttributeError for `None`)
+  `[e for _ in range(n)]`              ↦ `List.replicate n e` (`e` is not evaluated when `n = 0`)
+  `np.zeros(shape)` with a 2- or 3-tuple ↦ `zerosOfShape [..]`; `np.all(np.isfinite(m))` ↦ `Matrix.all isfinite m`;
+  `m @ a_matrix`                       ↦ `Matrix.matmul m a_matrix ncomp`
+  `f(matrix, …)` of a 2-D / 3-D glue function on the dynamically shaped `matrix` ↦ `callIndep` / `callDep`
+  `dataset[name] = (dims, value)`      ↦ a field of the result record; a value on the global dimension goes through
+                                         `onGlobalDim` (xarray's conflicting-sizes ValueError)
   source outside the subset            ↦ `untranslatable "<reason>"` (a default value: the file still compiles and the
                                          `generated_*_eq_model` theorem of that function no longer does)
 
@@ -79,6 +88,88 @@ def vecAddScalar (xs : List Rat) (s : Rat) : List Rat := xs.map (· + s)
 /-- `for i, x in enumerate(xs): state = body i x state` -/
 def enumFold {β σ : Type} (xs : List β) (init : σ) (body : Nat → β → σ → σ) : σ :=
   (xs.zipIdx).foldl (fun s xi => body xi.2 xi.1 s) init
+
+/-! ### vocabulary of the method-level translation (irf.py `parameter`, `calculate`; util.py `calculate_matrix`, `retrieve_irf`) -/
+
+/-- `xs[i]` -/
+def listGet (xs : List Rat) (i : Nat) : Except IrfError Rat :=
+  match xs[i]? with
+  | some x => .ok x
+  | none => .error .indexError
+
+/-- a use of `global_index` where a number is needed (`>=`, indexing) -/
+def needIndex (gi : Option Nat) : Except IrfError Nat :=
+  match gi with
+  | some i => .ok i
+  | none => .error .typeError
+
+/-- `p.value` where `p` is an optional Parameter attribute -/
+def optValue (x : Option Rat) : Except IrfError Rat :=
+  match x with
+  | some v => .ok v
+  | none => .error .noPeriod
+
+/-- `np.zeros(shape)` for the two shapes `calculate_matrix` builds -/
+def zerosOfShape {α : Type} [Num α] (shape : List Nat) : Matrix α :=
+  match shape with
+  | [n, r, c] => .dep (zeros3 n r c)
+  | [r, c] => .indep (zeros r c)
+  | _ => .indep []
+
+/-- `matrix @ a_matrix` written with dot products (`a_matrix : rates × compartments`) -/
+def Matrix.matmul {α : Type} [Num α] (M : Matrix α) (a : List (List Rat)) (ncomp : Nat) : Matrix α :=
+  let dot (row : List α) (c : Nat) : α :=
+    (row.zip a).foldl (fun acc xa => Num.add acc (Num.mul xa.1 (Num.ofRat (xa.2.getD c 0)))) (Num.ofRat 0)
+  let mm (m : Mat α) : Mat α := m.map (fun row => (List.range ncomp).map (dot row))
+  match M with
+  | .indep m => .indep (mm m)
+  | .dep ms => .dep (ms.map mm)
+
+/-- a glue function for 2-D arrays called on the dynamically shaped `matrix` -/
+def callIndep {α : Type} (M : Matrix α) (f : Mat α → Except IrfError (Mat α)) : Except IrfError (Matrix α) :=
+  match M with
+  | .indep m => bindE (f m) (fun r => .ok (.indep r))
+  | .dep _ => .error .typeError
+
+/-- a glue function for 3-D arrays; it dereferences `dataset_model.irf` (AttributeError on `None`) -/
+def callDep {α : Type} (M : Matrix α) (irf : Option Irf) (f : List (Mat α) → Irf → Except IrfError (List (Mat α))) :
+    Except IrfError (Matrix α) :=
+  match M, irf with
+  | .dep ms, some i => bindE (f ms i) (fun r => .ok (.dep r))
+  | .dep _, none => .error .noPeriod
+  | .indep _, _ => .error .typeError
+
+/-- an error of the IRF item inside `retrieve_irf` -/
+def liftIrf {β : Type} (x : Except IrfError β) : Except RetrieveError β :=
+  match x with
+  | .ok b => .ok b
+  | .error e => .error (.irf e)
+
+/-- xarray: a variable on the global dimension must have the length of the global axis -/
+def onGlobalDim {β : Type} (axis : List Rat) (xs : List β) : Except RetrieveError (List β) :=
+  if xs.length ≠ axis.length then .error .conflictingSizes else .ok xs
+
+instance {α : Type} : Inhabited (Matrix α) := ⟨.indep []⟩
+instance {α : Type} : Inhabited (IrfResult α) := ⟨⟨[], [], [], none, none, none⟩⟩
+
+/-- sequencing inside `retrieve_irf` -/
+def bindR {β γ : Type} (x : Except RetrieveError β) (k : β → Except RetrieveError γ) : Except RetrieveError γ :=
+  match x with
+  | .error e => .error e
+  | .ok b => k b
+
+/-- `np.asarray(rows).T` (rows of equal length; the number of columns is that of the first row) -/
+def transposeRows (rows : List (List Rat)) : List (List Rat) :=
+  (List.range (rows.headD []).length).map (fun g => rows.map (fun r => r.getD g 0))
+
+/-- xarray: every row of a variable on `(irf_nr, global dimension)` has the length of the global axis -/
+def onGlobalDimRows (axis : List Rat) (rows : List (List Rat)) : Except RetrieveError (List (List Rat)) :=
+  if rows.all (fun r => r.length == axis.length) then .ok rows else .error .conflictingSizes
+
+/-- `("irf_nr", xs) if len(xs) > 1 else xs[0]`: the list itself (a 0-d value is a list of one); `xs[0]` of an empty list
+    is an IndexError -/
+def scalarOrList (xs : List Rat) : Except IrfError (List Rat) :=
+  if xs.isEmpty then .error .indexError else .ok xs
 
 /-- what the translator emits for source it cannot translate: a default value carrying the reason -/
 def untranslatable {β : Type} [Inhabited β] (_reason : String) : β := default
